@@ -73,3 +73,48 @@ func VerifC20_VLANHistory() {
 }
 
 func init() { vHarness["VerifC20_VLANHistory"] = VerifC20_VLANHistory }
+
+// One allocation from an arbitrary usage state of one S-TAG with W C-TAGs (any subset in use, each by its own NTE):
+// a new NTE is given a pair nobody holds, inside the ranges, and allocation fails only when every pair is taken.
+func VerifC20_VLANAllocateStep() {
+	w := vParam("W", 4)
+	s0 := ndU16("s0")
+	c0 := ndU16("c0")
+	vAssume(s0 >= 1 && s0 <= 4000 && c0 >= 1 && c0 <= 4000)
+	cfg := VLANAllocatorConfig{STagRange: VLANRange{Start: s0, End: s0}, CTagRange: VLANRange{Start: c0, End: c0 + uint16(w) - 1}}
+	v := NewVLANAllocator(cfg)
+	used := 0
+	for i := 0; i < w; i++ {
+		if ndPick("in-use", 2) == 1 {
+			id := "held-" + string(rune('a'+i))
+			c := c0 + uint16(i)
+			v.allocations[id] = &VLANAllocation{STag: s0, CTag: c, NTEID: id}
+			if v.sTagUsage[s0] == nil {
+				v.sTagUsage[s0] = map[uint16]string{}
+			}
+			v.sTagUsage[s0][c] = id
+			used++
+		}
+	}
+	verifVLANInvariant(v)
+	var a *VLANAllocation
+	var err error
+	if ndPick("with-stag", 2) == 1 {
+		a, err = v.AllocateWithSTag("newcomer", s0)
+	} else {
+		a, err = v.Allocate("newcomer")
+	}
+	if err != nil {
+		vAssert(used == w, "exhaustion reported while pairs are free")
+	} else {
+		for id, h := range v.allocations {
+			if id != "newcomer" {
+				vAssert(!(h.STag == a.STag && h.CTag == a.CTag), "a new NTE was given a pair another NTE still holds")
+			}
+		}
+	}
+	verifVLANInvariant(v)
+	vReach("end")
+}
+
+func init() { vHarness["VerifC20_VLANAllocateStep"] = VerifC20_VLANAllocateStep }
